@@ -91,7 +91,8 @@ Proof.
       + unfold xok. rewrite xs_watch. exact H1.
       + destruct (read_of C a =? 0); [exact F0|]. apply save_trigger_read_ok. exact F0. }
   destruct (shp (xb C)); destruct v; try exact Body; try exact H1.
-  apply xok_push; [exact H1|exact fok_fx0].
+  - destruct (state_trig tr); [apply xok_push; [exact H1|exact fok_fx0]|exact H1].
+  - apply xok_push; [exact H1|exact fok_fx0].
 Qed.
 
 Lemma xok_tl X : xok X -> xok (set_xs X (tl (xs X))).
